@@ -15,8 +15,9 @@
 //
 // steps: results of successive Step calls of the mechanism in use: m<pl> (more, with
 // response), d<pl> (done), a (sasl.ErrAuthn), e (other error); past the end = e.
-// pl (payload): '-' empty, 'eq' a single '=', 'sh' two base64 characters, 'bad'
-// undecodable, v<hex> the base64 encoding of these bytes.
+// pl (payload): '-' empty, 'eq' a single '=', 'sh' two base64 characters ('sh1', 'sh3': one,
+// three), 'bad' undecodable ('bad5': a stray character after a complete quantum, 'badp':
+// padding in the middle), v<hex> the base64 encoding of these bytes.
 //
 // peer (client role): c<pl> challenge, s<pl> success, f failure, o unknown element in
 // the SASL namespace, n <success/> in another namespace, w white space; the script
@@ -80,8 +81,16 @@ func (p payload) wire() string {
 		return "="
 	case "sh":
 		return "AA"
+	case "sh1":
+		return "A"
+	case "sh3":
+		return "AAA"
 	case "bad":
 		return "!!!!"
+	case "bad5": // one character after a complete quantum
+		return "AAAAA"
+	case "badp": // padding in the middle
+		return "AA=A"
 	}
 	return ""
 }
@@ -95,7 +104,7 @@ func (p payload) field() string {
 
 func parsePayload(s string) (payload, error) {
 	switch s {
-	case "-", "eq", "sh", "bad":
+	case "-", "eq", "sh", "bad", "sh1", "sh3", "bad5", "badp":
 		return payload{kind: s}, nil
 	}
 	if strings.HasPrefix(s, "v") {
@@ -747,7 +756,7 @@ func runClient(r *common.Run, c cliCase, class string) error {
 			}
 		}
 		for i := 0; i < consumed; i++ {
-			if p := c.peer[i][1:]; (c.peer[i][0] == 'c' || c.peer[i][0] == 's') && (p == "bad" || p == "sh" || p == "eq") {
+			if p := c.peer[i][1:]; (c.peer[i][0] == 'c' || c.peer[i][0] == 's') && p != "-" && p[0] != 'v' {
 				r.Fail("client-authn-undecodable-payload", "payload="+p, lines, "authenticated although a payload was not valid base64")
 				break
 			}
@@ -1685,8 +1694,24 @@ func genRoundC(r *common.Run, rnd *common.Rand, pol policies) {
 			}
 		}
 	}
-	// ---- receiving side: the context is done at the k-th loop test ----
+	// ---- payloads at the boundaries of the two base64 decoders, both roles ----
 	sscripts := srvStepScripts()
+	for _, pl := range []string{"eq", "sh1", "sh", "sh3", "bad", "bad5", "badp"} {
+		for si, sc := range cliStepScripts() {
+			for _, peer := range [][]string{{"c" + pl}, {"c" + pl, "s-"}, {"cv01", "c" + pl}, {"cv01", "c" + pl, "s-"}, {"s" + pl}, {"cv01", "s" + pl}, {"cv01", "cv02", "s" + pl}} {
+				_ = runClient(r, cliCase{mechs: []string{"M1"}, adv: []string{"M1"}, steps: sc, peer: peer}, fmt.Sprintf("cli-b64-%d", si))
+			}
+		}
+		for si, sc := range sscripts {
+			for _, peer := range [][]string{{"AM1/" + pl}, {"AM1/" + pl, "R-"}, {"AM1/v01", "R" + pl}, {"AM1/v01", "R" + pl, "R-"}, {"AM1/" + pl, "R" + pl}} {
+				_ = runServer(r, srvCase{mechs: []string{"M1"}, steps: sc, perm: "any", peer: peer}, fmt.Sprintf("srv-b64-%d", si))
+			}
+		}
+		for _, perm := range []string{"any", "none"} {
+			_ = runServer(r, srvCase{mechs: []string{"PLAIN"}, perm: perm, peer: []string{"APLAIN/" + pl}}, "srv-b64-plain")
+		}
+	}
+	// ---- receiving side: the context is done at the k-th loop test ----
 	for si, sc := range sscripts {
 		for n := 0; n <= sdepth; n++ {
 			enumerate(srvAlphabet, n, func(peer []string) {
